@@ -408,7 +408,7 @@ func (P *Prog) conjoinBoolCallee(fs factSet, t *Term, val bool) {
 func closedOverParams(t *Term) bool {
 	return !t.contains(func(u *Term) bool {
 		switch u.Op {
-		case "alloc", "cyc", "dirty", "freevar", "next", "range", "phi", "mod":
+		case "cyc", "dirty", "freevar":
 			return true
 		}
 		return false
